@@ -29,8 +29,8 @@ MIXED = ['a', 1, '1', 'b', 2, '2', 'c', 3, '3', 'd', 4, '4']
 TOK = ['a', 'bb', 'ccc', 'b', 'aa', 'cc', 'abc', 'c', 'ab', 'bc', 'ca', 'cab']
 
 BOUNDS = {
-    'quick': dict(L=7, Lc=5, costs=[1, 2, 3], agg_pool=6),
-    'thorough': dict(L=9, Lc=6, costs=[1, 2, 3, 4], agg_pool=9),
+    'quick': dict(L=7, Lc=5, costs=[1, 2, 3], agg_pool=6, Lf=4),
+    'thorough': dict(L=9, Lc=6, costs=[1, 2, 3, 4], agg_pool=9, Lf=5),
 }
 BOUNDS['replay'] = BOUNDS['quick']
 NCHUNK = 8
@@ -78,6 +78,8 @@ def shards(tier):
     for L in range(0, b['Lc'] + 1):
         out.append({'kind': 'costs', 'L': L})
     out.append({'kind': 'agg'})
+    for L in range(0, b.get('Lf', 4) + 1):
+        out.append({'kind': 'faults', 'L': L})
     for n in LONG_N[tier if tier in LONG_N else 'quick']:
         out.append({'kind': 'long', 'n': n})
     return out
@@ -125,6 +127,10 @@ def run_shard(shard, ctx, tier):
                         continue
                     guarded_check(mod, {'kind': 'pair', 'render': 'int' if sum(costs) % 2 else 'str', 's': g[:cut],
                                         't': g[cut:], 'costs': list(costs)}, ctx)
+    elif shard['kind'] == 'faults':
+        for g in rgs(shard['L']):
+            for cut in range(shard['L'] + 1):
+                guarded_check(mod, {'kind': 'faults', 'render': 'int', 's': g[:cut], 't': g[cut:], 'costs': [1, 1, 1]}, ctx)
     elif shard['kind'] == 'long':
         for k, (s_, t_) in enumerate(long_pairs(shard['n'])):
             for costs in ([1, 1, 1], [2, 3, 1]):
@@ -408,8 +414,99 @@ def check_agg(case, ctx):
         ctx.violation('aggregation-is-plain-addition', f'{ID}/aggregate/error-rate', f'{agg.error_rate}')
 
 
+def path_pairs(path, s, t):
+    i = j = 0
+    pairs = []
+    for w in path:
+        if w < 0:
+            if j >= len(t):
+                return None
+            pairs.append((None, t[j])); j += 1
+        elif w > 0:
+            if i >= len(s):
+                return None
+            pairs.append((s[i], None)); i += 1
+        else:
+            if i >= len(s) or j >= len(t):
+                return None
+            pairs.append((s[i], t[j])); i += 1; j += 1
+    return pairs if (i == len(s) and j == len(t)) else None
+
+
+def check_faults(case, ctx):
+    """Environment answers (mc/faults.py): every single failing array allocation made by the functions themselves.  The call may report
+    the failure; an answer it returns nevertheless must be THE distance / a projecting alignment of exactly that cost."""
+    from pero_ocr import sequence_alignment as sa
+    from pero_ocr.error_summary import ErrorsSummary
+    from mc import faults
+    r = case['render']
+    s, t = render(case['s'], r), render(case['t'], r)
+    want = wagner_fischer(s, t, 1, 1, 1)
+    if len(t) > len(s):
+        cands = [best_substring_distance(t, s)]
+    elif len(s) > len(t):
+        cands = [best_substring_distance(s, t)]
+    else:
+        cands = sorted({best_substring_distance(s, t), best_substring_distance(t, s)})
+    ctx.state(('faults', case['s'], case['t']))
+
+    def ok_pairs(al):
+        p1 = [a for a, b in al if a is not None]
+        p2 = [b for a, b in al if b is not None]
+        return seq_same(p1, s) and seq_same(p2, t) and align_cost(al, 1, 1, 1) == want
+
+    def ok_path(path):
+        pr = path_pairs(path, s, t)
+        return pr is not None and align_cost(pr, 1, 1, 1) == want
+
+    def ok_sub_al(al):
+        p1 = [a for a, b in al if a is not None]
+        p2 = [b for a, b in al if b is not None]
+        if not (seq_same(p1, s) and seq_same(p2, t)):
+            return False
+        for free in ((lambda p: p[1] is None), (lambda p: p[0] is None)):
+            core = list(al)
+            while core and free(core[0]):
+                core.pop(0)
+            while core and free(core[-1]):
+                core.pop()
+            if align_cost(core, 1, 1, 1) in cands:
+                return True
+        return False
+
+    def ok_summary(es):
+        return es.nb_subs + es.nb_inss + es.nb_dels == want and es.nb_errors == want and es.ref_len == len(s)
+
+    calls = [('levenshtein_distance', lambda: sa.levenshtein_distance(list(s), list(t)), lambda v: float(v) == want),
+             ('levenshtein_alignment', lambda: sa.levenshtein_alignment(list(s), list(t)), ok_pairs),
+             ('levenshtein_alignment_path', lambda: sa.levenshtein_alignment_path(list(s), list(t)), ok_path),
+             ('levenshtein_distance_substring', lambda: sa.levenshtein_distance_substring(list(s), list(t)), lambda v: float(v) in [float(c) for c in cands]),
+             ('levenshtein_alignment_substring', lambda: sa.levenshtein_alignment_substring(list(s), list(t)), ok_sub_al),
+             ('ErrorsSummary.from_lists', lambda: ErrorsSummary.from_lists(list(s), list(t)), ok_summary)]
+    inj = faults.Injector(faults.numpy_allocators(), faults.memory_error)
+    for name, call, good in calls:
+        for k, site, (what, val) in inj.explore(call):
+            ctx.executed()
+            if k is None:
+                if what != 'ok':
+                    raise val
+                continue
+            ctx.tag('fault-points')
+            if what == 'raised':
+                ctx.tag('failure-reported')
+                ctx.outcome(('raised', type(val).__name__))
+                continue
+            ctx.nontrivial(('fault', name, case['s'], case['t'], k), 'answer-returned-despite-a-failed-allocation')
+            if not good(val):
+                ctx.violation('distance-is-minimum-edit-cost', f'{ID}/{name}/wrong-answer-after-a-failed-allocation',
+                              f'{name}({s!r},{t!r}) with the allocation #{k} ({site[2]} in {site[0]}:{site[1]}) raising MemoryError returned '
+                              f'{val if not hasattr(val, "nb_errors") else (val.nb_subs, val.nb_inss, val.nb_dels)!r} (distance {want}, substring optimum {cands})')
+
+
 def check_case(case, ctx):
-    if case['kind'] == 'pair':
+    if case['kind'] == 'faults':
+        check_faults(case, ctx)
+    elif case['kind'] == 'pair':
         check_pair(case, ctx)
     else:
         check_agg(case, ctx)
@@ -429,5 +526,5 @@ def describe(tier):
                         'for equal-length inputs either sequence may play the role of "the longer sequence"',
                         'sequences longer than the bound and costs above 4 are not explored'],
         'min_nontrivial': 10,
-        'required_tags': ['list-edited-in-place-changes-the-distance', 'optimum-beats-diagonal', 'substring-beats-whole', 'aggregate-of-several', 'other-containers', 'sequences-longer-than-255', 'other-gap-symbol'],
+        'required_tags': ['list-edited-in-place-changes-the-distance', 'optimum-beats-diagonal', 'substring-beats-whole', 'aggregate-of-several', 'other-containers', 'sequences-longer-than-255', 'other-gap-symbol', 'fault-points', 'failure-reported'],
     }
